@@ -238,6 +238,14 @@ def power_arrays(P, k0):
                 # absorber), coolant and duct heating continue
                 shp = 'zero'
             arr[k] = _cell_coeffs(rng, cnt[c], order, mean, shp)
+        if c == 2 and spec.get('duct_walls_zero'):
+            # exactly zero heating in some of the walls (duct items are
+            # listed wall by wall, innermost first)
+            nd_ = len(t['duct_ftf']) // 2
+            per = cnt[2] // nd_
+            for w_ in spec['duct_walls_zero']:
+                if 0 <= w_ < nd_:
+                    arr[:, w_ * per:(w_ + 1) * per, :] = 0.0
         out[names[c]] = arr
     # optional relabelling (used by the symmetry checks): element i of the
     # generated map is moved to index perm[i]
